@@ -105,18 +105,24 @@ Theorem C11_refutations_and_finding_class :
   observations qf_sum faithful hist_D12 = spec_observations qf_sum hist_D12.
 Proof. exact refutations_and_finding_class. Qed.
 
-(* ---- PART B: curvature_matrix / curvature_reg_matrix (in-place `+=` into the cached matrix, entry deleted) ------ *)
-Theorem C11_inversion_reads_pure : forall (add : adder) (F H : arr) (preload : bool) (qs : list iq),
-  irun add ifaithful preload F H (ist0 F) qs = map (ispec add F H) qs.
+(* ---- PART B: curvature_matrix / curvature_reg_matrix (in-place `+=` into the cached matrix, entry deleted;
+   preloaded curvature matrix / preloaded block-diagonal matrix copied before they are written into) ------------------ *)
+Theorem C11_inversion_reads_pure : forall (add : adder) (F H D U : arr) (pre : ipre) (qs : list iq),
+  irun add ifaithful pre F H D U (ist0 F D) qs = map (ispec add F H D) qs.
 Proof. exact inversion_reads_pure. Qed.
 Theorem C11_inversion_preload_alias_refuted :
-  irun vadd (mkIPolicy false true) true [1; 2]%Z [10; 10]%Z (ist0 [1; 2]%Z) [QFR; QPre]
-  <> map (ispec vadd [1; 2]%Z [10; 10]%Z) [QFR; QPre].
+  irun vadd (mkIPolicy false true true) PCurv [1; 2]%Z [10; 10]%Z [1; 0]%Z [1; 0]%Z (ist0 [1; 2]%Z [1; 0]%Z) [QFR; QPre]
+  <> map (ispec vadd [1; 2]%Z [10; 10]%Z [1; 0]%Z) [QFR; QPre].
 Proof. exact inversion_preload_alias_refuted. Qed.
 Theorem C11_inversion_entry_kept_refuted :
-  irun vadd (mkIPolicy true false) false [1; 2]%Z [10; 10]%Z (ist0 [1; 2]%Z) [QF; QFR; QF]
-  <> map (ispec vadd [1; 2]%Z [10; 10]%Z) [QF; QFR; QF].
+  irun vadd (mkIPolicy true false true) PNone [1; 2]%Z [10; 10]%Z [1; 0]%Z [1; 0]%Z (ist0 [1; 2]%Z [1; 0]%Z) [QF; QFR; QF]
+  <> map (ispec vadd [1; 2]%Z [10; 10]%Z [1; 0]%Z) [QF; QFR; QF].
 Proof. exact inversion_entry_kept_refuted. Qed.
+Theorem C11_inversion_preload_diag_alias_refuted_without_D20_repair :
+  irun vadd (mkIPolicy true true false) PDiag [1; 2; 2; 4]%Z [10; 0; 0; 10]%Z [1; 0; 0; 4]%Z [1; 2; 0; 4]%Z
+       (ist0 [1; 2; 2; 4]%Z [1; 0; 0; 4]%Z) [QF; QPreDiag]
+  <> map (ispec vadd [1; 2; 2; 4]%Z [10; 0; 0; 10]%Z [1; 0; 0; 4]%Z) [QF; QPreDiag].
+Proof. exact inversion_preload_diag_alias_refuted. Qed.
 
 (* ---- PART C: seeded noise --------------------------------------------------------------------------------------- *)
 Theorem C11_rng_seeded_is_state_independent :
@@ -166,5 +172,6 @@ Print Assumptions C11_refutations_and_finding_class.
 Print Assumptions C11_inversion_reads_pure.
 Print Assumptions C11_inversion_preload_alias_refuted.
 Print Assumptions C11_inversion_entry_kept_refuted.
+Print Assumptions C11_inversion_preload_diag_alias_refuted_without_D20_repair.
 Print Assumptions C11_rng_seeded_is_state_independent.
 Print Assumptions C11_rng_unseeded_depends_on_state.
